@@ -37,6 +37,8 @@ type inliner struct {
 	norm      *normaliser // purity oracle
 	hasDefer  map[*types.Func]bool
 	tail      map[ast.Stmt]bool // statements in tail position of the function being rewritten
+	closureFn map[*types.Var]*types.Func
+	known     func(q string, e ast.Expr) bool // is this defining expression part of the inventory of function q?
 }
 
 // FuncInventory lists "pkgpath.Func" / "pkgpath.Type.Method" for all first-party declarations.
@@ -54,7 +56,8 @@ func (p *Program) FuncInventory() []string {
 // InlineNewHelpers inlines every function that is not in the baseline inventory.
 func (p *Program) InlineNewHelpers(baseline *Baseline) {
 	for _, pkg := range p.All {
-		in := &inliner{prog: p, pkg: pkg, info: pkg.TypesInfo, cands: map[*types.Func]*ast.FuncDecl{}, remaining: map[*types.Func]int{}, hasDefer: map[*types.Func]bool{}}
+		in := &inliner{prog: p, pkg: pkg, info: pkg.TypesInfo, cands: map[*types.Func]*ast.FuncDecl{}, remaining: map[*types.Func]int{}, hasDefer: map[*types.Func]bool{}, closureFn: map[*types.Var]*types.Func{}}
+		in.known = func(q string, e ast.Expr) bool { return baseline.Locals[q][exprKey(pkg.TypesInfo, e)] }
 		in.norm = &normaliser{p: p, pkg: pkg, info: pkg.TypesInfo, pure: map[*types.Func]int{}, in: in}
 		for _, fd := range p.AllFuncDeclsRaw(pkg) {
 			if baseline.HasFunc(pkg.PkgPath + "." + FuncName(fd)) {
@@ -65,9 +68,6 @@ func (p *Program) InlineNewHelpers(baseline *Baseline) {
 				continue
 			}
 			in.cands[obj] = fd
-		}
-		if len(in.cands) == 0 {
-			continue
 		}
 		for round := 0; round < 4; round++ {
 			changed := false
@@ -175,6 +175,12 @@ func (in *inliner) calleeOf(call *ast.CallExpr) (*types.Func, *ast.FuncDecl, ast
 		return nil, nil, nil
 	}
 	fn, _ := in.info.Uses[id].(*types.Func)
+	if fn == nil {
+		// a local closure that is only ever called (see closureCands)
+		if v, ok := in.info.Uses[id].(*types.Var); ok && in.closureFn[v] != nil && recv == nil {
+			fn = in.closureFn[v]
+		}
+	}
 	if fn == nil {
 		return nil, nil, nil
 	}
@@ -420,6 +426,7 @@ func (in *inliner) rewriteBody(fd *ast.FuncDecl) bool {
 	}
 	self, _ := in.info.Defs[fd.Name].(*types.Func)
 	changed := false
+	closureDefs := in.closureCands(fd)
 	in.tail = map[ast.Stmt]bool{}
 	if n := len(fd.Body.List); n > 0 {
 		last := fd.Body.List[n-1]
@@ -494,7 +501,113 @@ func (in *inliner) rewriteBody(fd *ast.FuncDecl) bool {
 		changed = true
 		return true
 	})
+	// a closure whose every call was inlined disappears
+	for v, def := range closureDefs {
+		used := false
+		ast.Inspect(fd.Body, func(n ast.Node) bool {
+			if id, ok := n.(*ast.Ident); ok && in.info.Uses[id] == types.Object(v) {
+				used = true
+			}
+			return true
+		})
+		if used {
+			continue
+		}
+		astutil.Apply(fd.Body, nil, func(c *astutil.Cursor) bool {
+			if c.Node() == ast.Node(def) && c.Index() >= 0 {
+				c.Delete()
+				changed = true
+			}
+			return true
+		})
+		delete(in.cands, in.closureFn[v])
+		delete(in.closureFn, v)
+	}
 	return changed
+}
+
+// closureCands registers local function literals `name := func(…) {…}` that the inventory of fd
+// does not list, are never reassigned and are only ever called directly: they are inlined like
+// extracted helpers (they capture variables of the same function, so the copy refers to the same
+// objects).
+func (in *inliner) closureCands(fd *ast.FuncDecl) map[*types.Var]ast.Stmt {
+	out := map[*types.Var]ast.Stmt{}
+	if in.known == nil {
+		return out
+	}
+	q := in.pkg.PkgPath + "." + FuncName(fd)
+	ast.Inspect(fd.Body, func(n ast.Node) bool {
+		as, ok := n.(*ast.AssignStmt)
+		if !ok || as.Tok != token.DEFINE || len(as.Lhs) != 1 || len(as.Rhs) != 1 {
+			return true
+		}
+		lit, ok := as.Rhs[0].(*ast.FuncLit)
+		id, ok2 := as.Lhs[0].(*ast.Ident)
+		if !ok || !ok2 || in.known(q, lit) {
+			return true
+		}
+		v, _ := in.info.Defs[id].(*types.Var)
+		sig, _ := in.info.TypeOf(lit).(*types.Signature)
+		if v == nil || sig == nil || sig.Variadic() {
+			return true
+		}
+		if _, dup := in.closureFn[v]; dup {
+			out[v] = as
+			return true
+		}
+		// every use is the function position of a call; never assigned again
+		okUses := true
+		ast.Inspect(fd.Body, func(x ast.Node) bool {
+			switch y := x.(type) {
+			case *ast.CallExpr:
+				if fid, isID := y.Fun.(*ast.Ident); isID && in.info.Uses[fid] == types.Object(v) {
+					for _, a := range y.Args {
+						ast.Inspect(a, func(z ast.Node) bool {
+							if zid, isID := z.(*ast.Ident); isID && in.info.Uses[zid] == types.Object(v) {
+								okUses = false
+							}
+							return true
+						})
+					}
+					return false
+				}
+			case *ast.DeferStmt:
+				if fid, isID := y.Call.Fun.(*ast.Ident); isID && in.info.Uses[fid] == types.Object(v) {
+					okUses = false
+				}
+			case *ast.GoStmt:
+				if fid, isID := y.Call.Fun.(*ast.Ident); isID && in.info.Uses[fid] == types.Object(v) {
+					okUses = false
+				}
+			case *ast.Ident:
+				if in.info.Uses[y] == types.Object(v) {
+					okUses = false
+				}
+			case *ast.AssignStmt:
+				if y != as {
+					for _, l := range y.Lhs {
+						if lid, isID := l.(*ast.Ident); isID && in.info.Uses[lid] == types.Object(v) {
+							okUses = false
+						}
+					}
+				}
+			}
+			return true
+		})
+		if !okUses {
+			return true
+		}
+		fobj := types.NewFunc(id.Pos(), in.pkg.Types, id.Name, sig)
+		decl := &ast.FuncDecl{Name: id, Type: lit.Type, Body: lit.Body}
+		if !in.inlinable(decl, fobj) {
+			return true
+		}
+		in.closureFn[v] = fobj
+		in.cands[fobj] = decl
+		out[v] = as
+		return true
+	})
+	return out
 }
 
 // inlineStmt returns the replacement of a statement that consists of a call to a candidate.
